@@ -222,6 +222,13 @@ func genC19(r *core.Rand, stats map[string]int) c19Case {
 		}
 	}
 	cs.csv = buf.Bytes()
+	if r.Chance(1, 8) {
+		// the input begins with U+FEFF (what a spreadsheet export starts
+		// with): these three bytes belong to the first field of the first
+		// record like any others
+		cs.csv = append([]byte("\xef\xbb\xbf"), cs.csv...)
+		stats["input_begins_with_a_byte_order_mark"]++
+	}
 	cs.CSVHex = hex.EncodeToString(cs.csv)
 	return cs
 }
@@ -330,7 +337,7 @@ func refImport(cs c19Case) (events string, rows [][]proto.Val, causes []string) 
 }
 
 func checkC19(c *core.Ctx) []core.Floor {
-	c.Rule = "destination tables of 1-5 columns over the four types (incl. BIGINT; a third of them with upper-case letters in the column names and names that differ in case only), column mappings (subsets, permutations, repeated source index), separators , ; tab | and the non-ASCII § · → ， (given through the tool's own -separator flag handling), streams of 0-200 records mixing valid fields, records made of the destination columns' own names (a would-be header line, first or anywhere), \\N markers, short records, bad quoting (bare quote, text after a closing quote, at most one never-closed quote), empty lines, unparsable and out-of-range numbers, unparsable booleans, oversized rows, quoted fields with separators / newlines / quotes inside, text that is not valid UTF-8 (Latin-1 bytes, a UTF-16 byte order mark, cut-off sequences) and NUL bytes. The real makeConfig (flag values -> configuration) + colDataTypes + doBatchInsert run against a real database (in-package go test -overlay driver); both channels are drained in arrival order and the table is read back. Reference: encoding/csv configured like the importer (CSV syntax is the standard library's responsibility) + an independent conversion: one event per record in record order, #ok + #err = #records, stored rows = accepted records in input order with the mapped columns converted (INT/BIGINT decimal with range check, BOOLEAN from 1/true/t/0/false/f, VARCHAR verbatim, \\N -> NULL), unmapped columns NULL. In addition 32 (quick) / 640 (thorough) runs of the real csvimport BINARY end to end: database and table created through the engine in one process, the tool started with its command line flags and the CSV on standard input, the table read back by a third process; the stored rows and the number of '[line N]' error reports must be what the reference says, and the tool must exit normally. Distinct = (schema, mapping, CSV bytes); non-trivial = the stream contains at least one rejected and one accepted record."
+	c.Rule = "destination tables of 1-5 columns over the four types (incl. BIGINT; a third of them with upper-case letters in the column names and names that differ in case only), column mappings (subsets, permutations, repeated source index), separators , ; tab | and the non-ASCII § · → ， (given through the tool's own -separator flag handling), streams of 0-200 records mixing valid fields, records made of the destination columns' own names (a would-be header line, first or anywhere), \\N markers, short records, bad quoting (bare quote, text after a closing quote, at most one never-closed quote), empty lines, unparsable and out-of-range numbers, unparsable booleans, oversized rows, quoted fields with separators / newlines / quotes inside, text that is not valid UTF-8 (Latin-1 bytes, a UTF-16 byte order mark, cut-off sequences) and NUL bytes; one input in eight begins with a UTF-8 byte order mark. The real makeConfig (flag values -> configuration) + colDataTypes + doBatchInsert run against a real database (in-package go test -overlay driver); both channels are drained in arrival order and the table is read back. Reference: encoding/csv configured like the importer (CSV syntax is the standard library's responsibility) + an independent conversion: one event per record in record order, #ok + #err = #records, stored rows = accepted records in input order with the mapped columns converted (INT/BIGINT decimal with range check, BOOLEAN from 1/true/t/0/false/f, VARCHAR verbatim, \\N -> NULL), unmapped columns NULL. In addition 32 (quick) / 640 (thorough) runs of the real csvimport BINARY end to end: database and table created through the engine in one process, the tool started with its command line flags and the CSV on standard input, the table read back by a third process; the stored rows and the number of '[line N]' error reports must be what the reference says, and the tool must exit normally. Distinct = (schema, mapping, CSV bytes); non-trivial = the stream contains at least one rejected and one accepted record."
 	c.Assume = []string{"what a record is, is decided by encoding/csv with the importer's settings", "canonical number spellings only (optional leading minus, no plus sign, blanks or underscores)"}
 	bin, err := buildOverlayTest(c, "cmd/csvimport", "csvimport_driver_test.go", "zz_verif_driver_test.go")
 	if err != nil {
